@@ -111,7 +111,7 @@ BOUNDARY = [
     "schema.float.precision(2)", "schema.float.min(-1e308).max(1e308)", "schema.float(2.5).precision(1)",
     "schema.any(schema.int, schema.int.min(1).max(0))", "schema.list(schema.int.min(1).max(0))",
     "schema.dict({'a': schema.int, optional('b'): schema.int.min(1).max(0)})",
-    "schema.str.regex('[a-c]{2,}x|[^a-z]\\\\d')", "schema.str.regex('^ab?$')", "schema.str.regex('^[^\\\\w]{4,8}$')",
+    "schema.str.regex('[a-c]{2,}x|[^a-z]\\\\d')", "schema.str.regex('^ab?$')", "schema.str.regex('^[^\\\\w]{4,8}$')", "schema.str.regex('^a.{12}b$')", "schema.str.regex('^\\\\w{12}\\\\d{6}$')",
     "schema.str.regex('[^\\\\d\\\\w]{6}|[^a-zA-Z0-9]{6}')", "schema.list(schema.str.regex('^[^\\\\w ]{3}\\\\Z')).len(4)", "schema.bytes", "schema.date", "schema.uuid4",
     "schema.datetime", "schema.bool", "schema.any", "schema.dict", "schema.list", "schema.none",
     "schema.list([])", "schema.list([schema.int, schema.str])", "schema.dict({...: ...})",
@@ -144,7 +144,8 @@ def run(ctx):
         else:
             dist["unsat_or_unknown"] += 1
         kinds = None
-        smodes = modes + (["rand"] * ctx.scale(40, 120) if "regex(" in ssrc and "[^" in ssrc else [])
+        # every character of an alphabet must be drawn some time: many more random tapes for patterns
+        smodes = modes + (["rand"] * ctx.scale(40, 120) if "regex(" in ssrc else [])
         for m in smodes:
             pol = tape.Policy(r, m)
             outcome, res = gsuite.run(s, pol, generator)
